@@ -150,6 +150,11 @@ theorem Post.rw {fuel : Nat} {a b : St} {s s' : State F} {Q : State F → Prop}
     (h : exec fuel a s = exec fuel b s') (k : Post fuel b s' Q) : Post fuel a s Q := by
   unfold Post at *; rw [h]; exact k
 
+theorem exec_setI_lit (fuel : Nat) (v : String) (n : Int) (s : State F) :
+    exec fuel (.setI v (.lit n)) s = { s with ienv := setS s.ienv v n } := by
+  simp [exec, IE.ok, IE.eval]
+
+
 /-! ### names -/
 
 @[simp] theorem pfx_eq (p a b : String) : (p ++ a = p ++ b) = (a = b) :=
